@@ -11,6 +11,7 @@ pub mod c13;
 pub mod c14;
 pub mod c15;
 pub mod c16;
+pub mod c19;
 pub mod c20;
 pub mod lsp_tiers;
 
@@ -33,6 +34,7 @@ fn table(id: &str) -> Option<(Run, Judge, &'static str, &'static [&'static str])
         "C13" => Some((c13::run, c13::judge, c13::RULE, c13::ASSUMPTIONS)),
         "C14" => Some((c14::run, c14::judge, c14::RULE, c14::ASSUMPTIONS)),
         "C15" => Some((c15::run, c15::judge, c15::RULE, c15::ASSUMPTIONS)),
+        "C19" => Some((c19::run, c19::judge, c19::RULE, c19::ASSUMPTIONS)),
         "C20" => Some((c20::run, c20::judge, c20::RULE, c20::ASSUMPTIONS)),
         "C16" => Some((c16::run, c16::judge, c16::RULE, c16::ASSUMPTIONS)),
         "C06" => Some((c06::run, c06::judge, c06::RULE, c06::ASSUMPTIONS)),
